@@ -243,6 +243,16 @@ def attribute(diag: dict, prog: dict, prev: Any = None) -> Tuple[str, Set[str]]:
         else:
             clause = "async.on_sync_accepted"
     props = set(CLAUSES.get(clause, set()))
+    exp_ev, act_ev = diag.get("exp") or [""], diag.get("act") or [""]
+    if exp_ev[0] == "errf.in" and act_ev[0] == "errf.in" and clause in ("old.not_prestate", "post.result_seen",
+                                                                         "args.contract_seen"):
+        # it is an error factory that did not receive the values of the call
+        props.add("C09")
+    if diag.get("nested") and clause in ("pre.condition_skipped", "post.skipped_on_return", "inv.missing_before",
+                                         "inv.missing_after", "pre.body_entered_while_effpre_false"):
+        # a check went missing on a call made while ANOTHER callable / object was being checked: only own re-entry
+        # may go unchecked
+        props.add("C10")
     if props and any(f["async"] for f in prog["fn"]) and not any(
             f["async"] is False and f["kind"] not in ("init", "new", "repr", "setattr") for f in prog["fn"]):
         # only async callables are involved: whatever went wrong is (also) a sync/async discrepancy
